@@ -16,6 +16,9 @@ CLAIMED = {
     'C03': ('CBMC/DFCC function + loop contracts on code extracted from /repo each run',
             'proof of the bundle representation invariant that every reported result of RQB/FPBA rests on: 0 < size < capacity after the constructor path, append and moveto; every index written into the bundle buffers < capacity; delete_largest reads the multipliers inside [0,size) and a full bundle loses at least `count` entries; the eps-optimality certificate itself (convex analysis on values) and the ellipsoid clauses are not decided',
             'cardinality lemma for std::nth_element + nano::remove_if assumed (stated in specs/C03/bundle.h); matrix contents, smeared_e/s and the QP solve erased', '7/C03'),
+    'C05': ('weakest-precondition VCs over the reals (z3/cvc5) for the penalty kernels + CBMC/DFCC loop contract for the AL solver protocol, both on code extracted from /repo each run',
+            'proof (over R) that the per-constraint value and gradient coefficient of the linear, quadratic and augmented-Lagrangian penalty functions equal the defining formulas incl. gating and multiplier indexing; proof that the augmented-Lagrangian solver reports converged only for a valid state whose constraint violation is <= epsilon, with constraint values recomputed at the returned point',
+            'double treated as real for the formulas; constraint value/gradient code, Eigen coefficient-wise semantics, inner solver and make_criterion lifting assumed', '7/C05'),
     'C07': ('CBMC/DFCC function + loop contracts over a ghost-versioned state model, on code extracted from /repo each run',
             'proof for lsearchk_t::get/update and the backtrack, LeMarechal, Fletcher(+zoom) bodies: success is returned only right after the advertised predicates were evaluated true on the current trial point with the returned step, the state is then the valid evaluation at x+t*d, a non-descent direction is refused with the state untouched, every loop terminates',
             'state.update(x) = one evaluation at x (assumed), interpolation havocked, parameters inside their registered domains; success on quadratics and CG_DESCENT/More-Thuente bodies not decided', '7/C07'),
